@@ -1,2 +1,9 @@
 import BufrProps.C03
-#print axioms Bufr.C03.C03_column_equal
+#print axioms Bufr.C03.C03_element_bits
+#print axioms Bufr.C03.C03_section4_bits
+#print axioms Bufr.C03.C03_characters
+#print axioms Bufr.C03.C03_raw_value
+#print axioms Bufr.C03.C03_missing_all_ones
+#print axioms Bufr.C03.C03_column_bits
+#print axioms Bufr.C03.C03_refdecode_element
+#print axioms Bufr.C03.C03_refdecode_column
